@@ -249,6 +249,9 @@ def mod(name, body, vis='pub '):
     return '%smod %s {\nuse vstd::prelude::*;\n%s\n}\n' % (vis, name, body)
 
 
+MARKER = '// ==== end of shim (everything above is /verif/shim, trusted; below: text extracted from /repo + overlay) ====\n'
+
+
 def shim(*names):
     d = os.path.join(os.path.dirname(os.path.dirname(os.path.abspath(__file__))), 'shim')
-    return ''.join(open(os.path.join(d, n + '.rs')).read() for n in names)
+    return ''.join(open(os.path.join(d, n + '.rs')).read() for n in names) + MARKER
